@@ -75,7 +75,9 @@ func (f *frame) instr(in ssa.Instruction) {
 		f.unop(x)
 	case *ssa.Store:
 		addr := f.val(x.Addr)
-		f.nonNil(x.Pos(), addr)
+		if !derivedAddr(x.Addr) {
+			f.nonNil(x.Pos(), addr)
+		}
 		if pd := f.ptrDescOf(x.Val); pd != nil && pd.kind == pdField {
 			unsup("field pointer stored to memory")
 		}
@@ -183,7 +185,9 @@ func (f *frame) unop(x *ssa.UnOp) {
 	switch x.Op {
 	case token.MUL: // load
 		addr := f.val(x.X)
-		f.nonNil(x.Pos(), addr)
+		if !derivedAddr(x.X) {
+			f.nonNil(x.Pos(), addr)
+		}
 		T := deref(x.X.Type())
 		if g, ok := x.X.(*ssa.Global); ok {
 			if t, ok := f.vc.P.globalConst(f, g); ok {
@@ -628,4 +632,14 @@ func (f *frame) copyFlat(dst, src, n Term, el types.Type) {
 			f.st.set(hn, f.vc.rangeCopy(hn, h, h, dst, src, n, fi.sort))
 		}
 	}
+}
+
+// derivedAddr: addresses whose validity was already established where they were formed
+// (element of a bounds-checked index, field of a nil-checked base, fresh allocation, global).
+func derivedAddr(v ssa.Value) bool {
+	switch v.(type) {
+	case *ssa.IndexAddr, *ssa.FieldAddr, *ssa.Alloc, *ssa.Global:
+		return true
+	}
+	return false
 }
